@@ -384,13 +384,27 @@ def run(ctx):
                 if rng.random() < 0.5:
                     base = sum(gq * lo for gq, lo in zip(gv, lower))
                     cap = base + rng.choice([0, 1, 3, 6])
-                prob = _mk_vector_problem(vt)(lower, upper, d, gv, cap, d2=d2)
+                if rng.random() < 0.35:
+                    # the decision space is REVISED after construction through the public setters (the problem was built for a
+                    # wider box): the optimiser must respect the box the problem now declares
+                    dt = float if vt == "real" else int
+                    wl = [lo - rng.randrange(1, 4) for lo in lower]; wu = [up + rng.randrange(1, 7) for up in upper]
+                    if vt == "bin":
+                        wl, wu = lower, upper
+                    prob = _mk_vector_problem(vt)(wl, wu, d, gv, cap, d2=d2)
+                    lo_a = np.array(lower, dt); up_a = np.array(upper, dt)
+                    prob.decn_space = np.stack([lo_a, up_a]); prob.decn_space_lower = lo_a; prob.decn_space_upper = up_a
+                    revised = True
+                else:
+                    prob = _mk_vector_problem(vt)(lower, upper, d, gv, cap, d2=d2)
+                    revised = False
                 before = snapshot(prob)
                 seed = rng.randrange(2 ** 31)
                 np.random.seed(seed)
                 alg = make_algo(get_algo(name), rng, seed)
                 c = {"kind": "vector", "algo": name, "seed": seed, "vt": vt, "k": m, "lower": lower, "upper": upper, "d": d,
-                     "d2": d2 or [0] * m, "gv": gv, "con": cap is not None, "cap": cap if cap is not None else 0, "nobj": 2 if multi else 1}
+                     "d2": d2 or [0] * m, "gv": gv, "con": cap is not None, "cap": cap if cap is not None else 0, "nobj": 2 if multi else 1,
+                     "revised": revised}
                 try:
                     with time_limit(120):
                         soln = alg.minimize(prob)
